@@ -2149,9 +2149,11 @@ def read_lines(path_or_source, *, include=False, include_dirs=None):
             include_lines = read_lines(include_path, include=True, include_dirs=include_dirs)
             lines.extend(include_lines)
         # handle existence and size of include_bytes in the reader
-        elif raw_line.lower().startswith('include_bytes '):
+        elif re.match(r'\s*include_bytes\s', raw_line.lower() + ' '):
             try:
-                _, rel_path = raw_line.split()
+                # like any data line it may be indented and carry a trailing comment
+                raw_include = re.sub(r'#.*$', r'', raw_line)
+                _, rel_path = raw_include.split()
             except ValueError:
                 raise AssemblerError('include_bytes must specify a file', line)
 
@@ -2164,7 +2166,7 @@ def read_lines(path_or_source, *, include=False, include_dirs=None):
             size = os.path.getsize(include_path)
 
             # modify the line by appending the size to the end (too hacky?)
-            line.contents = '{} {}'.format(raw_line, size)
+            line.contents = 'include_bytes {} {}'.format(rel_path, size)
             # remember where the file was found (the written path is relative to the search dirs, not the cwd)
             line.include_bytes_path = include_path
             lines.append(line)
